@@ -27,7 +27,9 @@ Definition set_keys (d : dict) (ks : list key) : dict := fold_left set_key ks d.
 (* the shared caller objects; lists are abstracted by their contents as nat codes *)
 Record heap := {
   h_graph : list nat;            (* attribute writes / structural edits, as an event log: [] = untouched *)
-  h_opts : dict;                 (* optimization_options *)
+  h_opts : dict;                 (* optimization_options: the keys *)
+  h_has_ext : bool;              (* the dict holds a caller-owned LIST value: optimization_options["external_safe_paths"] *)
+  h_ext : list nat;              (* that list, as a log of extensions: [] = untouched *)
   h_sopts : list nat;            (* solver_options *)
   h_cons : list nat;             (* subpath / subset constraints *)
   h_ign : list nat;              (* elements_to_ignore *)
@@ -75,34 +77,60 @@ Definition solve_writes (c : cls) : list key :=
 Record op := { o_cls : cls; o_pass_opts : bool; o_sup : bool; o_hc : bool; o_solve : bool }.
 
 Definition with_opts (h : heap) (d : dict) : heap :=
-  {| h_graph := h_graph h; h_opts := d; h_sopts := h_sopts h; h_cons := h_cons h; h_ign := h_ign h;
-     h_starts := h_starts h; h_ends := h_ends h; h_defaults := h_defaults h |}.
+  {| h_graph := h_graph h; h_opts := d; h_has_ext := h_has_ext h; h_ext := h_ext h; h_sopts := h_sopts h; h_cons := h_cons h;
+     h_ign := h_ign h; h_starts := h_starts h; h_ends := h_ends h; h_defaults := h_defaults h |}.
+Definition with_ext (h : heap) (l : list nat) : heap :=
+  {| h_graph := h_graph h; h_opts := h_opts h; h_has_ext := h_has_ext h; h_ext := l; h_sopts := h_sopts h; h_cons := h_cons h;
+     h_ign := h_ign h; h_starts := h_starts h; h_ends := h_ends h; h_defaults := h_defaults h |}.
+
+(* option VALUES that are lists.  AbstractPathModelDAG.__init__ (abstractpathmodeldag.py:241-267):
+       self.safe_lists = self.external_safe_paths                      <- the caller's list, not a copy (5ed9792 copies the dict shallowly)
+       if optimize_with_subpath_constraints_as_safe_sequences (default True) and len(self.subpath_constraints) > 0 and not solved
+          and coverage == 1:   self.safe_lists += safe_sequences(...)  <- extends the caller's list
+   [ext_alias c] = class c reaches that code with the caller's list; [ext_in_solve c] = only in solve() (through the k-models it builds).
+   kFlowDecomp (and MinFlowDecomp through it) overwrites the key in its own copy of the dict for a conserving flow. *)
+Definition old_ext_alias (c : cls) : bool :=
+  match c with CkLeastAbsErrors | CkMinPathError | CkPathCover | CMinPathCover => true | _ => false end.
+Definition ext_in_solve (c : cls) : bool := match c with CMinPathCover => true | _ => false end.
+(* the repaired code: self.safe_lists = list(self.external_safe_paths) *)
+Definition ext_alias (c : cls) : bool := false.
 Definition is_empty (d : dict) := match d with [] => true | _ => false end.
 
 (* the heap after the operation.  Every other parameter is deep-copied, copied or only read by every class
    (constraints: copy.deepcopy in the abstract base classes; ignore lists / starts / ends: read into sets;
    solver_options: read, deep-copied before a time limit is adjusted; graph: copied into the st-graph / deep-copied by
    NodeExpandedDiGraph and the cover classes; mutable defaults: never written) *)
-Definition step_gen (hold_of : cls -> hold) (h : heap) (o : op) : heap :=
+Definition ext_step (alias_of : cls -> bool) (h : heap) (o : op) : heap :=
+  if o_pass_opts o && h_has_ext h && alias_of (o_cls o) && o_hc o && (negb (ext_in_solve (o_cls o)) || o_solve o)
+  then with_ext h (h_ext h ++ [1]) else h.
+Definition opts_step (hold_of : cls -> hold) (h : heap) (o : op) : heap :=
   if negb (o_pass_opts o) || is_empty (h_opts h) then h
   else match hold_of (o_cls o) with
        | AliasIfNonEmpty => with_opts h (set_keys (h_opts h) (ctor_writes (o_cls o) (o_sup o) (o_hc o)))
        | AliasForward => if o_solve o then with_opts h (set_keys (h_opts h) (solve_writes (o_cls o))) else h
        | _ => h
        end.
+Definition step_gen2 (hold_of : cls -> hold) (alias_of : cls -> bool) (h : heap) (o : op) : heap :=
+  ext_step alias_of (opts_step hold_of h o) o.
+Definition step_gen (hold_of : cls -> hold) := step_gen2 hold_of ext_alias.
 Definition step := step_gen opts_hold.                 (* the current code *)
 Definition old_step := step_gen old_opts_hold.         (* the code before 5ed9792 *)
 Definition run_gen (hold_of : cls -> hold) (ops : list op) (h : heap) : heap := fold_left (step_gen hold_of) ops h.
+(* the code at 003f186, before the list is copied: current dict handling, aliased list value *)
+Definition head_step := step_gen2 opts_hold old_ext_alias.
+Definition head_run (ops : list op) (h : heap) : heap := fold_left head_step ops h.
+(* one switch for the driver: [sw] = the list-aliasing finding is still open *)
+Definition run_sw (sw : bool) (ops : list op) (h : heap) : heap := if sw then head_run ops h else fold_left (step_gen opts_hold) ops h.
 Definition run := run_gen opts_hold.
 Definition old_run := run_gen old_opts_hold.
 
 (* what the constructed model sees: the option keys present at construction time (user keys only: the keys a
    constructor writes itself are overwritten by it), together with the other argument values *)
 Definition written_by_ctors (k : key) : bool := match k with KUser _ => false | KTrusted => false | _ => true end.
-Record view := { v_opts : dict; v_graph : list nat; v_sopts : list nat; v_cons : list nat; v_ign : list nat;
+Record view := { v_opts : dict; v_ext : list nat; v_graph : list nat; v_sopts : list nat; v_cons : list nat; v_ign : list nat;
                  v_starts : list nat; v_ends : list nat }.
 Definition view_of (h : heap) (o : op) : view :=
-  {| v_opts := if o_pass_opts o then h_opts h else []; v_graph := h_graph h; v_sopts := h_sopts h; v_cons := h_cons h;
+  {| v_opts := if o_pass_opts o then h_opts h else []; v_ext := if o_pass_opts o && h_has_ext h then h_ext h else []; v_graph := h_graph h; v_sopts := h_sopts h; v_cons := h_cons h;
      v_ign := h_ign h; v_starts := h_starts h; v_ends := h_ends h |}.
 (* a model's result is a function of the class and of what it saw (the solver is deterministic, §4) *)
 Definition model_of (h : heap) (o : op) : cls * view := (o_cls o, view_of h o).
